@@ -39,20 +39,22 @@ def stepLine (_ : Unit) (line : String) : Unit × String :=
       | none, _, _ => "unknown-definer"
       | _, _, _ => "bad-op"
     | [fn, a, b] =>
-      if fn = "expandguard" || fn = "denseexpand" || fn = "torchexpand" || fn = "expandfixed" then
+      if fn = "rangelist" then
+        match a.toNat?, parseInts? b with
+        | some n, some l => showUnit (Impl.tensorIndexGuard n l)
+        | _, _ => "bad-op"
+      else if fn = "expandguard" || fn = "denseexpand" || fn = "torchexpand" then
         match parseNats? a, parseInts? b with
         | some a, some s =>
           if fn = "expandguard" then
             (match Impl.expandGuard a s with | .ok l => "ok " ++ showList toString l | .error e => "err " ++ showErr e)
-          else if fn = "expandfixed" then
-            (match Impl.expandGuardFixed a s with | .ok l => "ok " ++ showList toString l | .error e => "err " ++ showErr e)
           else if fn = "denseexpand" then showRes (Impl.denseExpand a s)
           else showOpt (Spec.torchExpand? a s)
         | _, _ => "bad-op"
       else if fn = "range" || fn = "slicelen" || fn = "indexvalid" || fn = "fmod" then
         match a.toNat?, b.toInt? with
         | some n, some i =>
-          if fn = "range" then (match Impl.rangeCheck n i with | .ok k => s!"ok {k}" | .error _ => "err index")
+          if fn = "range" then (match Impl.intIndexGuard n i with | .ok k => s!"ok {k}" | .error _ => "err index")
           else if fn = "slicelen" then s!"ok {Impl.intAsSliceLen n i}"
           else if fn = "fmod" then s!"ok {Impl.fmodIndex n i}"
           else (if Spec.indexValid n i then "ok" else "err spec")
@@ -63,8 +65,7 @@ def stepLine (_ : Unit) (line : String) : Unit × String :=
         if fn = "torchmm" then showOpt (Spec.torchMatmulShape? a b)
         else if fn = "bc" then showOpt (Spec.broadcastShapes? a b)
         else if fn = "solvespec" then showOpt (Spec.solveShape? a b)
-        else if fn = "solve" then showUnit (Impl.solveGuard a b)
-        else if fn = "solvefixed" then showRes (Impl.solveGuardFixed a b)
+        else if fn = "solve" then showRes (Impl.solveGuard a b)
         else if fn = "invquad" then showRes (Impl.invQuadGuard a b)
         else if fn = "iql" then showUnit (Impl.iqlGuard a b)
         else if fn = "mul" then showRes (Impl.mulGuard a b)
